@@ -212,7 +212,20 @@ async fn do_cleanup(r: &mut Runner, m: &mut Maint, pol: &Policy, step: u64) {
     let _ = r.ds.checkout_latest().await;
     let latest = r.ds.version().version;
     let now = r.w.now_ns();
-    let policy = match build_policy(&r.ds, pol, now).await {
+    // the job may run from a handle that is behind the latest version (another writer committed
+    // since it was opened): a surviving older version is checked out for that
+    let stale: Option<u64> = if r.rng.chance(0.3) { m.alive.iter().rev().nth(r.rng.usize(3)).cloned().filter(|v| *v < latest) } else { None };
+    let handle = match stale {
+        Some(v) => match r.ds.checkout_version(v).await {
+            Ok(d) => {
+                r.res.probe("cleanup-from-stale-handle");
+                d
+            }
+            Err(_) => r.ds.clone(),
+        },
+        None => r.ds.clone(),
+    };
+    let policy = match build_policy(&handle, pol, now).await {
         Ok(p) => p,
         Err(e) => {
             r.res.violate("C08", "cleanup-policy", "policy-error", step, e);
@@ -222,9 +235,9 @@ async fn do_cleanup(r: &mut Runner, m: &mut Maint, pol: &Policy, step: u64) {
     let before_ts = policy.before_timestamp.map(|t| t.timestamp_nanos_opt().unwrap_or(0));
     let before_version = policy.before_version;
     let dlog_start = r.w.lock().delete_log.len();
-    r.res.script.push(format!("{}: {} at latest v{}", step, pol.brief(), latest));
-    r.res.kinds.push("cleanup".into());
-    let res = r.ds.cleanup_with_policy(policy).await;
+    r.res.script.push(format!("{}: {} at latest v{}{}", step, pol.brief(), latest, stale.map(|v| format!(" through a handle at v{}", v)).unwrap_or_default()));
+    r.res.kinds.push(if stale.is_some() { "cleanup-stale-handle".into() } else { "cleanup".into() });
+    let res = handle.cleanup_with_policy(policy).await;
     let stats = match res {
         Ok(s) => s,
         Err(e) => {
@@ -356,6 +369,9 @@ async fn race_round(r: &mut Runner, m: &mut Maint, cfg: &RunCfg) {
     let ct = tokio::spawn(async move {
         let res = guarded(async {
             let ds = cctx.open().await.map_err(|e| e.to_string())?;
+            // like `cleanup_old_versions(older_than)`: the cut-off is "now" when the job starts working,
+            // which may be after a concurrent writer published a version this handle does not know
+            let now = chrono::Utc::now().timestamp_nanos_opt().unwrap_or(now);
             let policy = build_policy(&ds, &pol2, now).await?;
             ds.cleanup_with_policy(policy).await.map_err(|e| e.to_string())?;
             Ok::<u64, String>(0)
